@@ -3,6 +3,7 @@ import JmesVerif.Lemmas.ParserComplete
 import JmesVerif.Lemmas.ParserFuel
 import JmesVerif.Lemmas.Lexer
 import JmesVerif.Lemmas.AbnfSound
+import JmesVerif.Lemmas.AbnfComplete
 /-!
 # C03 — compile accepts exactly the JMESPath language
 
@@ -181,6 +182,45 @@ theorem C03_language (cs : List Char) :
     obtain ⟨a, hp, _⟩ := C03_complete e hl ts hy
     exact ⟨e, a, by simp [parseExpr, hlex, hp]⟩
 
+/-- **Against the published ABNF (other direction).** Every sentence of the published grammar — any derivation of the ambiguous
+ABNF, of any size — is accepted by the parser, through a tree that uses none of the deviations. -/
+theorem C03_abnf_complete (w : List Tok) (h : Abnf.Expression w) (ts : List PT) (hy : tk ts = w ++ [Tok.eof]) :
+    ∃ (e : Expr) (a : Ast), parseTokens ts = .ok (e, a) ∧ (GrammarCheck.exprDev false e).languageClean := by
+  obtain ⟨e, hl, ht, hc⟩ := abnf_complete w h
+  obtain ⟨a, hp, _⟩ := C03_complete e hl ts (by rw [ht]; exact hy)
+  exact ⟨e, a, hp, hc⟩
+
+/-- **The language, against the specification's own grammar.** A string compiles *without one of the three listed deviations*
+iff it lexes to a token list that the published ABNF derives (followed by the end marker).  Together with the deviation
+counters this says: `compile` accepts exactly the JMESPath language, plus exactly the strings of the classes F3, F4, F5. -/
+theorem C03_abnf_language (cs : List Char) :
+    (∃ (e : Expr) (a : Ast), parseExpr cs = .ok (e, a) ∧ (GrammarCheck.exprDev false e).languageClean) ↔
+    (∃ (ts : List PT) (w : List Tok), tokenize cs = .ok ts ∧ Abnf.Expression w ∧ tk ts = w ++ [Tok.eof]) := by
+  constructor
+  · rintro ⟨e, a, h, hc⟩
+    obtain ⟨ts, e', hlex, _, _⟩ := (C03_language cs).mp ⟨e, a, h⟩
+    have hp : parseTokens ts = .ok (e, a) := by
+      unfold parseExpr at h
+      simp only [hlex] at h
+      split at h
+      · simp at h
+      · rename_i r hp
+        simp at h
+        subst h
+        exact hp
+    obtain ⟨hy, hl, _⟩ := T1_parseTokens ts e a hp
+    refine ⟨ts, e.toks, hlex, abnf_sound e 0 hl hc, ?_⟩
+    rcases hy with hy | hy
+    · obtain ⟨mid, rfl, _⟩ := tokenize_shape cs ts hlex
+      have hmem : Tok.eof ∈ e.toks := by
+        rw [← hy]; simp [tk]
+      have := Expr.toks_real e _ hmem
+      simp [Tok.isEof] at this
+    · exact hy
+  · rintro ⟨ts, w, hlex, hw, hy⟩
+    obtain ⟨e, a, hp, hc⟩ := C03_abnf_complete w hw ts hy
+    exact ⟨e, a, by simp [parseExpr, hlex, hp], hc⟩
+
 /-- every number token the lexer produces fits a signed 32-bit integer (magnitude ≤ 2^31 − 1) -/
 theorem C03_number_tokens_in_range (cs : List Char) (ts : List PT) (h : tokenize cs = .ok ts) (p : Nat) (n : Int)
     (hm : (p, Tok.number n) ∈ ts) : -2147483647 ≤ n ∧ n ≤ 2147483647 := by
@@ -216,6 +256,8 @@ end JmesVerif
 #print axioms JmesVerif.C03_language
 #print axioms JmesVerif.C03_no_fuel_tokens
 #print axioms JmesVerif.C03_abnf_sound
+#print axioms JmesVerif.C03_abnf_complete
+#print axioms JmesVerif.C03_abnf_language
 #print axioms JmesVerif.C03_number_tokens_in_range
 #print axioms JmesVerif.C03_multiselect_nonempty
 #print axioms JmesVerif.T1_expr
